@@ -70,6 +70,27 @@ Example C02_value_example :
                ([97], Seq [(RIdx 0, null_node); (RIdx 1, Seq [(RIdx 0, Scalar TInt [53])])])]) ++ [10].
 Proof. exact assign_value_example. Qed.
 
+(* `p o= r` (+=, -=, *=, ...) at any simple path is `p = (old o r)`: the path is created, the match is cloned ($c),
+   `$c o r` is evaluated read-only in the caller's context, and the match receives its result -- for every operator o
+   and every assignment-free r with one result *)
+Theorem C02_compound_is_assignment_of_result : forall p o r doc f n1 pos,
+  p <> [] -> Forall step_ok p -> (length p + 3 <= f)%nat -> afree r = true ->
+  vivp p doc = Some (n1, pos) ->
+  forall old, get_at n1 pos = Some old ->
+  exists g cp, forall q st3 w,
+    eval f (EBin o (EVar var_c) r) true [(var_l, [(O, pos)]); (var_c, [cp])] [(O, [])] ([mkRoot None None n1] ++ g) = Ok ([q], st3) ->
+    ptr_eqb (O, pos) q = false -> deref st3 q = Some w ->
+    deref ([mkRoot None None n1] ++ g) cp = Some old /\
+    exists st', eval (S f) (ECompound o (pe p) r) false [] [(O, [])] (init_store doc) = Ok ([(O, [])], st')
+                /\ deref st' (O, []) = Some (upd_at n1 pos (fun _ => w)).
+Proof. exact compound_path_value. Qed.
+Print Assumptions C02_compound_is_assignment_of_result.
+
+Example C02_compound_example :
+  run (ECompound OAdd (pe [EK [97]; EI [49] 1]) (ELit TInt [53])) (Map [([97], Seq [(RIdx 0, Scalar TInt [49]); (RIdx 1, Scalar TInt [50])])])
+  = tag_ok ++ ser_node (Map [([97], Seq [(RIdx 0, Scalar TInt [49]); (RIdx 1, Scalar TInt [55])])]) ++ [10].
+Proof. exact compound_example. Qed.
+
 (* a multi-match left-hand side: `.[] = scalar` gives every child of a sequence or map the value, in document order,
    keeps every key, and touches nothing else *)
 Theorem C02_assign_splat_sets_every_child : forall t v doc f,
@@ -117,8 +138,8 @@ Example C02_path_example :
 Proof. exact assign_path_example. Qed.
 
 (* The key-path special cases (Proofs/AssignProofs.v), kept because their statements are exact about the store.
-   Other multi-match left-hand sides (select-filtered, recursive), right-hand sides with several results and op= are
-   tied by the correspondence check only. *)
+   Other multi-match left-hand sides (select-filtered, recursive), right-hand sides with several results and multi-match
+   op= are tied by the correspondence check only. *)
 Theorem C02_assign_is_put_keys_partial : forall ks t v doc fuel,
   ks <> [] -> (length ks + 3 <= fuel)%nat -> no_wild ks ->
   forall n', put (List.map SKey ks) (Scalar t v) doc = Some n' ->
